@@ -26,6 +26,8 @@ TypeEv ==
     \* what a virtual sign derives from the block: a page of w x h is stored with those dimensions, a shorter or longer one is not
     /\ E.vsign.full = [stored |-> 1, w |-> E.w, h |-> E.h, typ |-> E.name]
     /\ E.vsign.short.stored = 0 /\ E.vsign.long.stored = 0
+    \* and it is the block sent last that counts (a doctored block with the same family / id before it changes nothing)
+    /\ E.vsign.after_doctored = E.vsign.full /\ E.vsign.after_doctored_retry = E.vsign.full
     /\ LET pr == <<E.block[1], E.block[2]>> IN
         /\ (pr \in DOMAIN ids => ids[pr] = E.name)             \* no two types share (family, id)
         /\ ids' = [q \in DOMAIN ids \cup {pr} |-> IF q = pr THEN E.name ELSE ids[q]]
